@@ -14,7 +14,7 @@ use serde::{Deserialize, Serialize};
 pub fn def() -> PropDef {
     PropDef {
         id: "C05",
-        rule: "generated histories (1..12 ops) on one encoder or decoder of every family x engine: reset to other counts / shard size / rate, complete rounds (result read or dropped unread), abandoned partial rounds, failing adds, failing resets, premature encode/decode, into_parts -> new(Some(work)) into another family and engine; half of the histories with the poison hook armed (every byte of working memory that survives a resize is replaced by seeded noise). oracle: at every encode/decode the calls made since the last reset / dropped result are replayed on a freshly constructed object of the current configuration; every call result and the output bytes must be identical. part long_life: one tiny encoder or decoder lives through 2..4 epochs of 0..3 / ~256 / ~512 / ~65536 cheap complete rounds, each followed by a real round compared with a fresh object (and with the originals), without any explicit reset (wrapping per-round counters and stamps). part reset_streaks: one object (first built for a larger configuration) goes through 1..4 streaks of 0..300 consecutive resets that cycle through 1..3 small configurations (with a cheap round after every reset, every few, or never), each streak followed by a real round compared with a fresh object and the originals (amortised shrinking / re-sizing decisions that count consecutive resets). part big_history: the same oracle on few, long shards (working spaces 1 MiB .. 256 MiB quick / 2 GiB thorough, log-uniform) with several rounds per object. non-trivial: >=2 completed rounds on the one object (the classes report how many of them had a configuration change, recycle, failed call or poison in between); distinct by full history",
+        rule: "generated histories (1..12 ops) on one encoder or decoder of every family x engine: reset to other counts / shard size / rate, complete rounds (result read or dropped unread), abandoned partial rounds, failing adds, failing resets, premature encode/decode, into_parts -> new(Some(work)) into another family and engine; half of the histories with the poison hook armed (every byte of working memory that survives a resize is replaced by seeded noise). oracle: at every encode/decode the calls made since the last reset / dropped result are replayed on a freshly constructed object of the current configuration; every call result and the output bytes must be identical. part long_life: one tiny encoder or decoder lives through 2..4 epochs of 0..3 / ~256 / ~512 / ~65536 cheap complete rounds, each followed by a real round compared with a fresh object (and with the originals), without any explicit reset (wrapping per-round counters and stamps). part reset_streaks: one object (first built for a larger configuration) goes through 1..4 streaks of 0..300 consecutive resets that cycle through 1..3 small configurations (with a cheap round after every reset, every few, or never; in a third of the streaks the steps are, or alternate with, into_parts -> new(Some(work)) of the next codec family), each streak followed by a real round compared with a fresh object and the originals (amortised shrinking / re-sizing decisions that count consecutive resets). part big_history: the same oracle on few, long shards (working spaces 1 MiB .. 256 MiB quick / 2 GiB thorough, log-uniform) with several rounds per object. non-trivial: >=2 completed rounds on the one object (the classes report how many of them had a configuration change, recycle, failed call or poison in between); distinct by full history",
         assumptions: &[
             "an implementation does not carry knowledge about the *contents* of working memory across a resize (poison only overwrites the retained prefix, where real stale bytes live)",
             "shard contents are arbitrary bytes: the decoder is compared with a fresh decoder on the same inputs, consistency of the shards is not needed for this property",
@@ -356,6 +356,10 @@ pub struct Streak {
     pub round_every: u8,
     pub recv: gen::RecvSpec,
     pub seed: u64,
+    /// 0: every step is a reset; 1: every step is into_parts -> new(Some(work)) of the next family in the cycle
+    /// default, high, low (engine kept); 2: resets and such recycles alternate. (ReedSolomon* has no into_parts: resets.)
+    #[serde(default)]
+    pub recycle: u8,
 }
 
 #[derive(Clone, Debug, PartialEq, Eq, Hash, Serialize, Deserialize)]
@@ -384,8 +388,8 @@ pub fn streak_strategy(_t: Tier) -> BoxedStrategy<StreakCase> {
         6 => 1u32..=300,
         4 => (4u32..=8, 0u32..5).prop_map(|(a, d)| (1u32 << a) + d - 2),
     ];
-    let streak = (n, prop::collection::vec(small_cfg(), 1..=3), prop_oneof![3 => Just(0u8), 1 => Just(1u8), 1 => 2u8..=9], gen::recv_spec(), any::<u64>())
-        .prop_map(|(n, cfgs, round_every, recv, seed)| Streak { n, cfgs, round_every, recv, seed });
+    let streak = (n, prop::collection::vec(small_cfg(), 1..=3), prop_oneof![3 => Just(0u8), 1 => Just(1u8), 1 => 2u8..=9], gen::recv_spec(), any::<u64>(), prop_oneof![4 => Just(0u8), 1 => Just(1u8), 1 => Just(2u8)])
+        .prop_map(|(n, cfgs, round_every, recv, seed, recycle)| Streak { n, cfgs, round_every, recv, seed, recycle });
     (any::<bool>(), gen::kind_any()).prop_flat_map(move |(dec, kind)| {
         (any::<u8>(), init_cfg.clone(), prop::collection::vec(streak.clone(), 1..=4)).prop_map(move |(eraw, init, streaks)| {
             let fast: Vec<Eng> = [Eng::NoSimd, Eng::Ssse3, Eng::Avx2, Eng::Default].iter().copied().filter(|e| e.available()).collect();
@@ -403,8 +407,10 @@ fn check_streak(c: &StreakCase, st: &mut Stats) -> CheckResult {
 /// `truthful`: (used by C06) every call of the real rounds is valid and complete, so it must succeed
 pub fn run_streak(c: &StreakCase, st: &mut Stats, part: &str, truthful: bool) -> CheckResult {
     let mut cur = c.init;
-    let mut obj = Obj::make(c.dec, c.kind, c.eng, Cfg { k: cur.0, r: cur.1, b: cur.2 }).map_err(|e| format!("construction failed: {e:?}"))?;
+    let mut kind = c.kind;
+    let mut obj = Obj::make(c.dec, kind, c.eng, Cfg { k: cur.0, r: cur.1, b: cur.2 }).map_err(|e| format!("construction failed: {e:?}"))?;
     let mut resets = 0u64;
+    let mut recycles = 0u64;
     let mut longest = 0u32;
     let mut changed_at_end = false;
     for s in &c.streaks {
@@ -412,8 +418,23 @@ pub fn run_streak(c: &StreakCase, st: &mut Stats, part: &str, truthful: bool) ->
         for i in 0..s.n {
             // the cycle is aligned so that the last reset of the streak lands on the last entry
             let cfg = s.cfgs[(i as usize + m - (s.n as usize % m)) % m];
-            let out = obj.apply(&Call::Reset(cfg.0, cfg.1, cfg.2))?;
-            ensure!(out.is_ok(), "reset #{resets} of the object to the supported configuration {cfg:?} failed: {}", out.brief());
+            if kind != Kind::Rs && (s.recycle == 1 || (s.recycle == 2 && i % 2 == 1)) {
+                let next = match kind {
+                    Kind::Default => Kind::High,
+                    Kind::High => Kind::Low,
+                    _ => Kind::Default,
+                };
+                obj = match crate::runner::no_panic(|| obj.recycle(next, c.eng, Cfg { k: cfg.0, r: cfg.1, b: cfg.2 })) {
+                    Ok(Ok(o)) => o,
+                    Ok(Err(e)) => fail!("step #{resets}: new(Some(work)) of the {} family with the supported configuration {cfg:?} failed: {e:?}", next.name()),
+                    Err(p) => fail!("step #{resets}: new(Some(work)) {p}"),
+                };
+                kind = next;
+                recycles += 1;
+            } else {
+                let out = obj.apply(&Call::Reset(cfg.0, cfg.1, cfg.2))?;
+                ensure!(out.is_ok(), "reset #{resets} of the object to the supported configuration {cfg:?} failed: {}", out.brief());
+            }
             if i + 1 == s.n && cfg != cur {
                 changed_at_end = true;
             }
@@ -437,7 +458,7 @@ pub fn run_streak(c: &StreakCase, st: &mut Stats, part: &str, truthful: bool) ->
         let mut calls = Vec::new();
         let mut given = Vec::new();
         if c.dec {
-            let rec = encode_all(c.kind, c.eng, k, r, b, &data).map_err(|e| format!("encode failed: {e:?}"))?;
+            let rec = encode_all(kind, c.eng, k, r, b, &data).map_err(|e| format!("encode failed: {e:?}"))?;
             given = s.recv.arrival(k, r);
             for g in &given {
                 calls.push(if g.rec { Call::AddR(g.idx, rec[g.idx].clone()) } else { Call::AddO(g.idx, data[g.idx].clone()) });
@@ -448,13 +469,13 @@ pub fn run_streak(c: &StreakCase, st: &mut Stats, part: &str, truthful: bool) ->
             }
         }
         calls.push(Call::Finish { read: true });
-        let mut fresh = Obj::make(c.dec, c.kind, c.eng, Cfg { k, r, b }).map_err(|e| format!("construction failed: {e:?}"))?;
+        let mut fresh = Obj::make(c.dec, kind, c.eng, Cfg { k, r, b }).map_err(|e| format!("construction failed: {e:?}"))?;
         let mut last = None;
         for call in &calls {
             let o = obj.apply(call)?;
             if truthful {
                 ensure!(o.is_ok(), "after {resets} resets on one {} (the last streak: {} consecutive resets) the valid call {} on {k}+{r} x {b} reports {} (family {}, engine {})",
-                    if c.dec { "decoder" } else { "encoder" }, s.n, brief(call), o.brief(), c.kind.name(), c.eng.name());
+                    if c.dec { "decoder" } else { "encoder" }, s.n, brief(call), o.brief(), kind.name(), c.eng.name());
                 last = Some(o);
                 continue;
             }
@@ -462,7 +483,7 @@ pub fn run_streak(c: &StreakCase, st: &mut Stats, part: &str, truthful: bool) ->
             if o != of {
                 fail!(
                     "after {resets} resets on one {} (the last streak: {} consecutive resets): {} gives {} but a fresh object gives {} (family {}, engine {}, {k}+{r} x {b})",
-                    if c.dec { "decoder" } else { "encoder" }, s.n, brief(call), o.brief(), of.brief(), c.kind.name(), c.eng.name()
+                    if c.dec { "decoder" } else { "encoder" }, s.n, brief(call), o.brief(), of.brief(), kind.name(), c.eng.name()
                 );
             }
             last = Some(o);
@@ -474,6 +495,7 @@ pub fn run_streak(c: &StreakCase, st: &mut Stats, part: &str, truthful: bool) ->
     st.classf("subject", if c.dec { "decoder" } else { "encoder" });
     st.classf("longest_streak_log2", 32 - longest.leading_zeros());
     st.classf("geometry_changed_by_last_reset", changed_at_end);
+    st.classf("recycles_log2", 64 - recycles.leading_zeros());
     if longest >= 16 {
         st.nontrivial_case(part, c);
     }
